@@ -4079,8 +4079,15 @@ scobindUndo()
 
 	scoUndoStab(scoStab);
 
-	listFreeDeeply(Syme)(scoUndoSymes, symeFree);
-	listFreeDeeply(TForm)(scoUndoTForms, tfFree);
+	/*
+	 * The meanings and type forms taken out of the symbol table are not
+	 * freed here: others may still hold them (a library type caches the
+	 * import meanings made for it, even by a rejected step, and hands
+	 * them out at the next import).  The collector reclaims what is
+	 * really unreachable.
+	 */
+	listFree(Syme)(scoUndoSymes);
+	listFree(TForm)(scoUndoTForms);
 
 	scoUndoState = false;
 }
